@@ -53,7 +53,13 @@ CLAIMED = {
              "(adjacent month, same day or the month's own last day in the target year), n months are n single steps, "
              "ordinal/week dates go via calendar form and back, years clamp per representation (29 Feb->28 Feb, 366->365, "
              "W53->last week); time, offset, representation kept; result always valid; exact part first, then months, "
-             "then years. The clamp domain is finite and swept exhaustively by the correspondence in the thorough tier.",
+             "then years. The clamp domain is finite and swept exhaustively by the correspondence in the thorough tier. "
+             "Every precision form (Props/C05q over the rational-slot model addDurQ = addExactQ, then addMonthsQ, then addYearsQ, "
+             "mirroring add_months and the year branch on points whose minute/second slots may be None): C05_nominal_projection - "
+             "the month/year part never reads the time slots; C05_add_months_rat / C05_add_years_rat - the date is exactly the "
+             "whole-second theorems' date, time slots, slot pattern, offset and representation unchanged, result legal; "
+             "C05_order_rat; C05_add_valid_rat; C05_rat_extends_int - on whole-second points the rational model is the integer "
+             "model. Tied to the float implementation by the addnomq correspondence (instant to 1 us).",
         design="DESIGN §8 C05",
         technique="Lean 4 proof (induction over month steps) + model/implementation correspondence"),
     "C06": dict(
@@ -73,8 +79,13 @@ CLAIMED = {
              "constructor): addition is commutative and associative field for field, the empty duration is the identity, "
              "d + (-1*d) is empty, n*d equals n-fold addition, 1W=7D=168H..., == holds exactly when years, months and the "
              "exact remainder match (an equivalence), equal durations hash equally, and <,<=,>,>= are the order of the "
-             "rough length (common-year length, 30-day month), hence mutually consistent. Integer components for all Int; "
-             "decimal components are observed only, within tolerance.",
+             "rough length (common-year length, 30-day month), hence mutually consistent. Integer components for all Int. "
+             "Fractional hours/minutes/seconds (the only components the constructor lets be fractional: C11q_constructor_accepts): "
+             "Props/C11q proves the same laws over the model DurationQ with rational h/mi/s (C11q_eq_iff, C11q_hash(_iff), "
+             "C11q_add_comm/assoc/zero/inverse, C11q_mul_is_repeated_add, C11q_units(_frac), C11q_order(_mutual), "
+             "C11q_exact_order_by_length, C11q_standardize, C11q_abs, C11q_floordiv) and C11_rat_extends_int that 20 operations "
+             "coincide with the integer model on integral input. The op durq ties it to the float implementation exactly on "
+             "dyadic inputs (18 operations); other decimals are observed within tolerance (dfloat).",
         design="DESIGN §8 C11",
         technique="Lean 4 proof (linear arithmetic over Int) + model/implementation correspondence"),
     "C18": dict(
@@ -97,7 +108,10 @@ CLAIMED = {
              "end), strictly monotone, valid, in the anchor's representation and offset; bounded iteration is exactly the "
              "prefix of that series up to the derived bound, independent of fuel once it exceeds a stated bound. The bounded "
              "COUNT / reaching the end anchor is false of the code for month/year intervals (known finding F5: two proved "
-             "counter-witnesses, matched by mechanism in the correspondence).",
+             "counter-witnesses, matched by mechanism in the correspondence). min_point/max_point (Props/C12mm over the model "
+             "RecMM): with no window every function is the existing one (RecMM_none_is_Rec); iteration with a window is the "
+             "longest prefix of the unrestricted iteration lying within [min, max] (C12_mm_iter_longest_prefix, closed forms per "
+             "constructor for exact intervals); ops mmr* tie it to the code.",
         design="DESIGN §8 C12",
         technique="Lean 4 proof (induction over iteration, refinement to an arithmetic series of instants) + correspondence"),
     "C13": dict(
@@ -108,7 +122,14 @@ CLAIMED = {
              "(C13_is_valid_iff_iterated), with the closed characterisation (in bounds and a multiple of the interval from "
              "the anchor) and the amount of iteration that suffices (early exits sound); get_first_after: closed form, the "
              "start before the series, None after it, and the result is the LEAST member strictly later than the probe "
-             "(C13_first_after_least). Month/year intervals: correspondence only.",
+             "(C13_first_after_least). Month/year intervals (Props/C13c, every non-negative nominal interval, relative to the "
+             "iteration as it is): get_next / get_prev from the k-th iterated point give the (k+1)-th in the direction of "
+             "iteration and None exactly at the end (C13_next_nominal, C13_prev_nominal + per-constructor corollaries; a witness "
+             "that against the direction the neighbour can be a non-member), r[i] is i-fold nominal addition cut at the far bound "
+             "(C13_getitem_nominal(_rev)), get_is_valid iff an iterated point has the probe's instant with the fuel that suffices "
+             "(C13_is_valid_nominal(_rev)), the iteration branch of get_first_after returns the least iterated member later than "
+             "the probe (C13_first_after_nominal). Windows (Props/C13mm): C13_mm_is_valid_sound/_iff_iterated, C13_mm_next_prev, "
+             "C13_mm_first_after_*.",
         design="DESIGN §8 C13",
         technique="Lean 4 proof + model/implementation correspondence"),
     "C14": dict(
@@ -117,8 +138,12 @@ CLAIMED = {
              "keeps repetitions, notation and an interval of the same length, and its k-th iterated point is the k-th point "
              "of r moved by exactly x's length, valid, same representation and offset; (r + x) + (-x) == r; equality holds "
              "exactly when repetitions, start, end (by instant) and interval agree; equal recurrences have equal hash keys. "
-             "Month/year intervals and the text round trip are covered by the correspondence (rshift/req/rhasheq/rtext), "
-             "the latter not yet modelled.",
+             "Month/year intervals (Props/C14c): for ANY shift x and every notation incl. single points, r + x is the "
+             "constructor applied to the anchor moved by x with the same repetitions and interval (C14_shift_nominal_*, "
+             "C14_anchor_shift_total), and (r + x) - x == r for exact x (C14_shift_inverse_nominal_*); witnesses that the derived "
+             "far bound is re-derived rather than moved. Windows (Props/C14mm): C14_mm_eq_iff (all six components), C14_mm_hash, "
+             "C14_mm_differ_only_in_min/max, C14_mm_shift_iff. The text round trip: see the C14 text theorems if listed in the "
+             "evidence, else the rtext correspondence (one long-lived parser, sibling cases under another calendar mode).",
         design="DESIGN §8 C14",
         technique="Lean 4 proof + model/implementation correspondence"),
     "C15": dict(
@@ -199,8 +224,15 @@ CLAIMED = {
              "digits the signed forms are refused (DESIGN §9). Reproduction (Props/C07c): C07_as_parsed(_any,_same,_decimal,"
              "_date) - parsing any such text with dump_as_parsed and printing it reproduces the text, a '-' on an all-zero "
              "year or offset becoming '+', decimal fractions of <= 6 digits up to trailing zeros (longer ones are rounded: "
-             "known finding F12, proved as the model's behaviour). PARTIAL: truncated forms are decided by the three-way "
-             "correspondence; decimals are digit strings (floats observed).",
+             "known finding F12, proved as the model's behaviour). Truncated forms (Props/C07d, allow_truncated, every table): "
+             "C07_truncated_decode(_date) / C07_truncated_fields / C07_truncated_properties - every truncated date template "
+             "(25 per table) and truncated time template (18), in every documented combination (truncated date alone; any time "
+             "and zone after a marked or absent date), decodes to a point whose truncated properties are exactly the spelled "
+             "fields with exactly those values, nothing defaulted; C07_truncated_zone - zone unknown iff none is spelled and the "
+             "parser defaults to unknown; C07_truncated_accept; C07_truncated_first - no truncated form is the later form of an "
+             "overlap; C07_truncated_as_parsed(_any,_decimal,_date) - reproduced by dump_as_parsed. The model of "
+             "get_truncated_properties is tied to the code by the op tprops (texts rendered from parser_spec's own tables). "
+             "Decimals are digit strings (floats observed).",
         design="DESIGN §8 C07, §13",
         technique="Lean 4 proof (generic template round trip by induction; table facts by kernel evaluation over templates "
                   "regenerated from the live regexes) + three-way correspondence"),
